@@ -20,4 +20,4 @@ require (
 	google.golang.org/protobuf v1.35.1 // indirect
 )
 
-replace github.com/gebn/bmc => /tmp/mx.C18-15.32449
+replace github.com/gebn/bmc => /tmp/mx.C20-16.31823
